@@ -30,4 +30,20 @@ theorem C12_tie_guard_cache_helpers : ∀ f ∈ CM.Gen.Guard.cache_helpers, help
 theorem C12_tie_guard_cache_covers :
     ["Cache.cacheCertificate", "Cache.replaceCertificate", "Cache.Remove", "Cache.getAllMatchingCerts", "Config.handshakeMaintenance", "Config.updateARI", "Cache.updateOCSPStaples", "Cache.removeCertificate", "Cache.unsyncedCacheCertificate"].all (fun n => (CM.Gen.Guard.cache_funcs ++ CM.Gen.Guard.cache_helpers).any (fun f => f.1 == n)) = true := by decide
 
+/-! #### writes need the EXCLUSIVE lock
+
+The same maps once more with a narrower vocabulary: "lock"/"unlock" are `mu.Lock`/`mu.Unlock`
+only (the read lock is not part of it), "access" are map WRITES and deletes only. Accepted by
+the same verified checker: no execution writes to `cache` or `cacheIndex` while holding
+nothing, or merely the read lock. -/
+
+theorem C12_tie_guard_cache_writes_exclusive : ∀ f ∈ CM.Gen.Guard.cachew_funcs, fnOK P f.2 = true := by decide
+
+theorem C12_tie_guard_cache_writes_exclusive_sound (f : String × Sk) (hf : f ∈ CM.Gen.Guard.cachew_funcs)
+    {o : Out} {m : M} {v : Bool} (he : Exec P f.2 .free o m v) : v = false :=
+  (fnOK_sound (C12_tie_guard_cache_writes_exclusive f hf) he).1
+
+theorem C12_tie_guard_cache_writes_exclusive_helpers :
+    ∀ f ∈ CM.Gen.Guard.cachew_helpers, helperOK P f.2 = true := by decide
+
 end CM.Tie.GuardCache
